@@ -169,6 +169,15 @@ def for_begin(key, it, locs):
         lp.seq = ks.copy()
         lp.view = "k" if isinstance(it, SymDict) else it.mode
         lp.map = it if isinstance(it, SymDict) else it.d
+    elif type(it).__name__ == "SymOMap" and it._ty.listlike:
+        # a list of distinct items (omap.OSeq): enumerated as the set of its items, in ARBITRARY order - an
+        # over-approximation of the list order, for loop contracts that do not depend on it (additive: was OUT-OF-REACH)
+        lp.mode = "set"
+        lp.kty, lp.dom, lp.view, lp.map = it._ty.key, it._ty.dt.dom(it.term), "k", None
+        lp.visited = z3.K(lp.kty.sort(), z3.BoolVal(False))
+        lp.cur = None
+        _check_inv(lp, locs, "entry")
+        return lp
     elif type(it).__name__ == "SymVec":
         lp.seq = _VecSeq(it.copy())
     elif _range_bounds(it) is not None:
